@@ -60,6 +60,14 @@ TITLES = {
     'C17b/2': ('the header is skipped again after every refill of the record buffer', 'a file with a header and more records than the batch capacity'),
     'C20b/1': ('LIKE-to-regex translation pushes the escaped character without regex escaping', 'a LIKE pattern escaping a regex metacharacter (a\\.c)'),
     'C20b/2': ('left() with a negative count uses the byte length', 'a negative count and a multi-byte character'),
+    'C02b/1': ('the sort-limit hint ignores OFFSET (hint = limit)', 'ORDER BY .. LIMIT l OFFSET o with o > 0 and more than l rows'),
+    'C02b/2': ('any filter over the mark column turns a LEFT MARK join into a SEMI join', 'x NOT IN (uncorrelated subquery) as a WHERE conjunct'),
+    'C06b/1': ('ComparisonOperator::flip maps <= to > (the line of negate())', 'ON r.y <= l.x (right side written first) with equal values'),
+    'C06b/2': ('hash join SEMI / MARK scan stops following the chain after the first match', 'two build-side rows with the same matching key in a semi / mark join'),
+    'C11b/1': ('_rowid offset of a new row group continues from the rows scanned so far', 'a Parquet file with several row groups, _rowid projected, a group pruned or given to another partition'),
+    'C11b/2': ('glob expansion drops queued sub-directories when the same listing produced a file', 'a glob ending in ** over a directory holding both files and sub-directories'),
+    'C19b/1': ('uncompressed-chunk page size check relaxed from != to <', 'a page header of an uncompressed chunk announcing uncompressed > compressed size'),
+    'C19b/2': ('CSV header detection unwraps the UTF-8 decoding of the first record', 'invalid UTF-8 in the first line of a CSV file'),
     'C14b/2': ('INSERT flushes the table after every batch', 'INSERT ... SELECT from the same table, or an INSERT whose source fails after the first batch'),
 }
 # how the machinery fared before / after strengthening (filled by hand from the session log)
